@@ -911,7 +911,7 @@ dis_interval<Number>::UDiv(const dis_interval<Number> &x) const {
     return this->bottom();
   } else {
     auto f = [](ikos::interval<Number> a, ikos::interval<Number> b) {
-      return a / b;
+      return a.UDiv(b);
     };
     return apply_bin_op(*this, x, f, false);
   }
